@@ -563,4 +563,170 @@ theorem cleanUpLevel_range (k : Kind) (rIdx : Nat) (p4 : Word) :
                 rw [List.getElem_drop, List.getElem_range]; omega
               exact hcomp i himem e g hq hqi hov hns hg
 
+/-! ### Repeating a clean-up -/
+
+/-- No linked table strictly below `r` that overlaps `lo..hi` (outside the skipped slot) is empty —
+the state a clean-up run leaves behind (`cleanUpLevel_range`). -/
+def Stable (p4 : Word) (rsk : Option Nat) (r : List Nat) (lo hi : Nat) (m : PMem) : Prop :=
+  ∀ q g, Below r q → q.length ≤ 3 → IdxOK q → Overlaps q lo hi → NotSkipped rsk q →
+    tblAt m p4 q = some g → ∃ j, j < 512 ∧ m g j ≠ 0#64
+
+/-- `s'` is `s` with some read events appended. -/
+def ReadsOnly (s s' : St) : Prop :=
+  s'.mem = s.mem ∧ s'.allocs = s.allocs ∧ ∃ seg, s'.events = s.events ++ seg ∧ ∀ ev ∈ seg, ∃ f j, ev = Ev.rd f j
+
+theorem ReadsOnly.refl (s : St) : ReadsOnly s s := ⟨rfl, rfl, [], by simp, by intro ev h; cases h⟩
+
+theorem ReadsOnly.trans {a b c : St} (h1 : ReadsOnly a b) (h2 : ReadsOnly b c) : ReadsOnly a c := by
+  obtain ⟨m1, a1, s1, e1, r1⟩ := h1
+  obtain ⟨m2, a2, s2, e2, r2⟩ := h2
+  refine ⟨m2.trans m1, a2.trans a1, s1 ++ s2, by rw [e2, e1]; simp, ?_⟩
+  intro ev h
+  rcases List.mem_append.1 h with h | h
+  · exact r1 ev h
+  · exact r2 ev h
+
+theorem ReadsOnly.rd (s : St) (f : Word) (i : Nat) : ReadsOnly s (s.rd f i).2 :=
+  ⟨rfl, rfl, [.rd f i], by simp, by intro ev h; simp at h; exact ⟨f, i, h⟩⟩
+
+theorem ReadsOnly.isEmpty (s : St) (tbl : Word) : ReadsOnly s (tableIsEmpty s tbl).2 := by
+  obtain ⟨h1, h2, ⟨seg, h3, h4⟩, _⟩ := tableIsEmpty_spec s tbl
+  exact ⟨h1, h2, seg, h3, fun ev hev => by obtain ⟨j, hj⟩ := h4 ev hev; exact ⟨tbl, j, hj⟩⟩
+
+/-- **A clean-up of a hierarchy that a clean-up of the same range left behind changes nothing**: it
+only reads — no write, no deallocation. -/
+theorem cleanUpLevel_stable (k : Kind) (rIdx : Nat) (p4 : Word) :
+    ∀ (lvl : Nat) (r : List Nat) (tbl : Word) (s : St) (rs re : Nat),
+      1 ≤ lvl → Inv s.mem p4 → tblAt s.mem p4 r = some tbl → r.length + lvl = 4 → IdxOK r →
+      (∀ x, recSkipOf k rIdx = some x → r ≠ [] → r.head? ≠ some x) →
+      RangeIn lvl (tnum r) rs re → Stable p4 (recSkipOf k rIdx) r (pn rs) (pn re) s.mem →
+      ReadsOnly s (cleanUpLevel k rIdx lvl s tbl rs re).2 := by
+  intro lvl
+  induction lvl with
+  | zero => intro r tbl s rs re h; omega
+  | succ level ih =>
+    intro r tbl s rs re _ hinv hr hlen hri hskip hrange hstable
+    have hrl : r.length ≤ 3 := by omega
+    unfold cleanUpLevel
+    simp only
+    split
+    · exact ReadsOnly.refl s
+    · split
+      · exact ReadsOnly.refl s
+      · rename_i tableAddr htable
+        split
+        · exact ReadsOnly.isEmpty s tbl
+        · rename_i hl1
+          have hl : level + 1 = 2 ∨ level + 1 = 3 ∨ level + 1 = 4 := by omega
+          generalize hX : List.foldl _ (R.ok (), s) _ = X
+          have hl' : ReadsOnly s X.2 := by
+            rw [← hX]
+            refine foldl_inv (fun (acc : R Unit × St) => ReadsOnly s acc.2) _ _ _ (ReadsOnly.refl s) ?_
+            intro acc i himem hacc
+            obtain ⟨hi1, hi2'⟩ := mem_drop_range himem
+            have hi2 : i ≤ VirtAddr.pageTableIndex re (level + 1) := by omega
+            obtain ⟨_, hw2, _, _⟩ := window (level + 1) (tnum r) rs re hl hrange
+            have hi : i < 512 := by omega
+            obtain ⟨ta, st0, en0, hta, hfw, hadd, hchild, hpn1, hpn2⟩ :=
+              child_range (level + 1) (tnum r) rs re i hl hrange hi1 hi2
+            have htaeq : ta = tableAddr := by rw [htable] at hta; exact (R.ok.inj hta).symm
+            subst htaeq
+            obtain ⟨hsl, hsh⟩ := span_child_eq r i (level + 1) hlen (by omega)
+            simp only [Nat.add_sub_cancel] at hpn1 hpn2 hchild hsl hsh
+            rw [← hsl] at hpn1
+            rw [← hsh] at hpn2
+            have hpnle : pn (max (Page.containingAddress 4096 st0) rs) ≤ pn (min (Page.containingAddress 4096 en0) re) :=
+              (pn_mono hchild.1 hchild.2.1).1 hchild.2.2.1
+            have hovi : Overlaps (r ++ [i]) (pn rs) (pn re) := by
+              rw [hpn1, hpn2] at hpnle
+              constructor
+              · have := Nat.le_min.1 (Nat.le_trans (Nat.le_max_right _ _) hpnle); exact this.1
+              · have := Nat.max_le.1 (Nat.le_trans hpnle (Nat.min_le_right _ _)); exact this.1
+            have hlo : pn rs ≤ pn (max (Page.containingAddress 4096 st0) rs) := by rw [hpn1]; exact Nat.le_max_left _ _
+            have hhi : pn (min (Page.containingAddress 4096 en0) re) ≤ pn re := by rw [hpn2]; exact Nat.min_le_left _ _
+            obtain ⟨ra, s0⟩ := acc
+            obtain ⟨hm0, ha0, hev0⟩ := hacc
+            have hacc : ReadsOnly s s0 := ⟨hm0, ha0, hev0⟩
+            simp only at hm0
+            cases ra with
+            | panic => exact hacc
+            | ok u =>
+              cases u
+              simp only
+              have hri' : IdxOK (r ++ [i]) := IdxOK_append.2 ⟨hri, fun j hj => by simp at hj; rw [hj]; exact hi⟩
+              split
+              · exact hacc
+              · rename_i hnskip
+                have h1 := hacc.trans (ReadsOnly.rd s0 tbl i)
+                split
+                · exact h1
+                · rename_i child hnt
+                  have hto : tableOf (s.mem tbl i) = some child := by
+                    rw [← hm0]; exact (nextTable_ok_iff _ _).1 (by simpa using hnt)
+                  split
+                  · exact h1
+                  · rename_i st0' hsome
+                    have : st0 = st0' := by rw [hfw] at hsome; exact Option.some.inj hsome
+                    subst this
+                    split
+                    · exact h1
+                    · rename_i en0' hok
+                      have : en0 = en0' := by rw [hadd] at hok; exact R.ok.inj hok
+                      subst this
+                      have hm1 : (s0.rd tbl i).2.mem = s.mem := by simpa using hm0
+                      have hrc : tblAt (s0.rd tbl i).2.mem p4 (r ++ [i]) = some child := by
+                        rw [hm1, tblAt_append, hr]; simp [tblAt, hto]
+                      have hskip' : ∀ x, recSkipOf k rIdx = some x → r ++ [i] ≠ [] → (r ++ [i]).head? ≠ some x := by
+                        intro x hx _
+                        cases r with
+                        | nil =>
+                          simp only [List.nil_append, List.head?_cons, ne_eq, Option.some.injEq]
+                          intro hix
+                          apply hnskip
+                          unfold recSkipOf at hx
+                          split at hx
+                          · rename_i hk
+                            have hl4 : level + 1 = 4 := by simp at hlen; omega
+                            simp only [Option.some.injEq] at hx
+                            simp [hk, hl4, hix, hx]
+                          · cases hx
+                        | cons a r' =>
+                          simpa using hskip x hx (by simp)
+                      have hchild' : RangeIn level (tnum (r ++ [i]))
+                          (max (Page.containingAddress 4096 st0) rs) (min (Page.containingAddress 4096 en0) re) := by
+                        rw [tnum_snoc]; exact hchild
+                      have hstable' : Stable p4 (recSkipOf k rIdx) (r ++ [i])
+                          (pn (max (Page.containingAddress 4096 st0) rs)) (pn (min (Page.containingAddress 4096 en0) re))
+                          (s0.rd tbl i).2.mem := by
+                        rw [hm1]
+                        intro q g hb hq hqi hov hns hg
+                        exact hstable q g hb.of_ext hq hqi (hov.mono hlo hhi) hns hg
+                      have hinv1 : Inv (s0.rd tbl i).2.mem p4 := by rw [hm1]; exact hinv
+                      have hro := ih (r ++ [i]) child (s0.rd tbl i).2 _ _ (by omega) hinv1 hrc (by simp; omega) hri' hskip' hchild' hstable'
+                      obtain ⟨_, ⟨b, hb, hbiff⟩, _⟩ := cleanUpLevel_range k rIdx p4 level (r ++ [i]) child (s0.rd tbl i).2 _ _
+                        (by omega) hinv1 hrc (by simp; omega) hri' hskip' hchild'
+                      -- the child is not empty, so the answer is `false`
+                      have hbf : b = false := by
+                        cases b with
+                        | false => rfl
+                        | true =>
+                          exfalso
+                          have hall := hbiff.1 rfl
+                          rw [hro.1, hm1] at hall
+                          obtain ⟨j, hj, hnz⟩ := hstable (r ++ [i]) child ⟨List.prefix_append _ _, by simp⟩ (by simp; omega) hri' hovi
+                            (fun x hx => hskip' x hx (by simp)) (by rw [tblAt_append, hr]; simp [tblAt, hto])
+                          exact hnz (hall j hj)
+                      subst hbf
+                      split
+                      · rename_i heq; rw [heq] at hb; cases hb
+                      · rename_i heq; rw [heq] at hro; exact h1.trans hro
+                      · rename_i heq; rw [heq] at hb; cases hb
+          obtain ⟨rx, s2⟩ := X
+          cases rx with
+          | panic => exact hl'
+          | ok u =>
+            cases u
+            simp only
+            exact ReadsOnly.trans hl' (ReadsOnly.isEmpty s2 tbl)
+
 end X86
